@@ -13,9 +13,10 @@ Core-only.
     covered by the identical SAN (Go treats it as an invalid candidate => exact match).
 
 (b) `pkg/haproxy/types/global.go` `AcmeStorages` (items / itemsAdd / itemsDel with the pointer
-    sharing between `items` and `itemsAdd`), `config.Clear()` (a brand new, empty storages
-    object), `config.Commit()`, `instance.AcmeUpdate()` on leader / non-leader, with and
-    without an ACME account.
+    sharing between `items` and `itemsAdd`, the snapshot `Acquire` takes of a committed storage,
+    the `cleared` flag), `config.Clear()` (the storages object is carried over, its items become
+    removal candidates), `config.Commit()`, `instance.AcmeUpdate()` on leader / non-leader, with
+    and without an ACME account.  The code before the repairs is kept as `*Old` (witnesses only).
 
 (c) the part of `pkg/converters/ingress/ingress.go` that feeds (b): per partial sync the
     tracker closure (`trackAddedIngress` + `QueryLinks(..., true)`) decides which storages are
@@ -156,6 +157,7 @@ structure Storages where
   items : SMap := []
   add   : SMap := []
   del   : SMap := []
+  cleared : Bool := false     -- between `Clear()` and `Commit()`
 deriving Repr, DecidableEq
 
 /-- queue facade calls -/
@@ -165,8 +167,22 @@ inductive QOp where
 deriving Repr, DecidableEq
 
 /-- `Acquire(n)` + `AddDomains(doms)` + (`chain ≠ ""` → `AssignPreferredChain(chain)`).
-The object in `itemsAdd` is the one in `items` (same pointer), so it sees the mutation. -/
+The object in `itemsAdd` is the one in `items` (same pointer), so it sees the mutation. A
+committed storage (in `items`, not in `itemsAdd`) is registered in `itemsAdd` and a clone of its
+former state in `itemsDel`, unless one is there already. -/
 def acquire (s : Storages) (n chain : String) (doms : List String) : Storages :=
+  match find s.items n with
+  | none =>
+    let c : Cert := { chain := assignChain "" chain, doms := addDoms [] doms }
+    { s with items := insert s.items n c, add := insert s.add n c }
+  | some cur =>
+    let c : Cert := { chain := assignChain cur.chain chain, doms := addDoms cur.doms doms }
+    if (find s.add n).isSome then { s with items := insert s.items n c, add := insert s.add n c }
+    else { s with items := insert s.items n c, add := insert s.add n c,
+                  del := if (find s.del n).isSome then s.del else insert s.del n cur }
+
+/-- `Acquire` before the repair: a committed storage was mutated in place and nothing recorded -/
+def acquireOld (s : Storages) (n chain : String) (doms : List String) : Storages :=
   match find s.items n with
   | none =>
     let c : Cert := { chain := assignChain "" chain, doms := addDoms [] doms }
@@ -183,15 +199,20 @@ def removeOne (s : Storages) (n : String) : Storages :=
 
 def removeAll (s : Storages) (ns : List String) : Storages := ns.foldl removeOne s
 
-/-- `shrink`: a name whose removed and (re)added objects are deep-equal is neither -/
+/-- `shrink`: a name whose removed and (re)added objects are deep-equal is dropped from the
+removals, and — unless a `Clear()` is pending: a full sync enqueues everything — from the additions -/
 def shrink (s : Storages) : Storages :=
   let same (n : String) : Bool := (find s.add n).isSome && find s.add n == find s.del n
-  { s with add := s.add.filter (fun e => !same e.1), del := s.del.filter (fun e => !same e.1) }
+  { s with add := if s.cleared then s.add else s.add.filter (fun e => !same e.1),
+           del := s.del.filter (fun e => !same e.1) }
 
-def commit (s : Storages) : Storages := { s with add := [], del := [] }
+def commit (s : Storages) : Storages := { s with add := [], del := [], cleared := false }
 
-/-- `config.Clear()`: `createConfig` makes a new `AcmeData{}`; the old storages object is dropped -/
-def clear (_ : Storages) : Storages := {}
+/-- `config.Clear()` -> `AcmeData.ClearStorages()` -> `AcmeStorages.Clear()`: the storages object
+survives, all its items become removal candidates -/
+def clear (s : Storages) : Storages :=
+  { items := [], add := [],
+    del := s.items ++ s.del.filter (fun e => (find s.items e.1).isNone), cleared := true }
 
 /-- `instance.AcmeUpdate()`; `acct` = `acmeEnsureConfig` (signer.HasAccount) -/
 def acmeUpdate (leader acct : Bool) (s : Storages) : Storages × List QOp :=
@@ -201,6 +222,23 @@ def acmeUpdate (leader acct : Bool) (s : Storages) : Storages × List QOp :=
       let s' := shrink s
       (s', s'.add.map (fun e => QOp.add e.1 e.2) ++ s'.del.map (fun e => QOp.remove e.1 e.2))
   else (shrink s, [])          -- `storages.Updated()` shrinks, nothing is enqueued
+
+/-! the code before the repairs (historical witnesses only) -/
+
+def shrinkOld (s : Storages) : Storages :=
+  let same (n : String) : Bool := (find s.add n).isSome && find s.add n == find s.del n
+  { s with add := s.add.filter (fun e => !same e.1), del := s.del.filter (fun e => !same e.1) }
+
+/-- `config.Clear()` used to make a new `AcmeData{}`: the old storages object was dropped -/
+def clearOld (_ : Storages) : Storages := {}
+
+def acmeUpdateOld (leader acct : Bool) (s : Storages) : Storages × List QOp :=
+  if leader then
+    if !acct then (s, [])
+    else
+      let s' := shrinkOld s
+      (s', s'.add.map (fun e => QOp.add e.1 e.2) ++ s'.del.map (fun e => QOp.remove e.1 e.2))
+  else (shrinkOld s, [])
 
 inductive Op where
   | clear
@@ -264,12 +302,12 @@ def runCycles (s : Storages) : List Cycle → Storages × List (List QOp)
     let rest := runCycles r.1 cs
     (rest.1, r.2 :: rest.2)
 
-/-- converter contract for a partial cycle: a storage that is acquired was either removed
-first (it is rebuilt from scratch) or did not exist — never mutated in place -/
-def Cycle.wf (s : Storages) (c : Cycle) : Prop :=
-  c.full = false → ∀ a ∈ c.acqs, a.name ∈ c.dirty ∨ find s.items a.name = none
-
-instance (s : Storages) (c : Cycle) : Decidable (c.wf s) := by unfold Cycle.wf; infer_instance
+/-- one cycle of the code before the repairs -/
+def cycleOld (s : Storages) (c : Cycle) : Storages × List QOp :=
+  let pre := c.acqs.foldl (fun s a => acquireOld s a.name a.chain a.doms)
+    (if c.full then clearOld s else removeAll s c.dirty)
+  let r := acmeUpdateOld c.leader c.acct pre
+  (commit r.1, r.2)
 
 /-! ### Spec (b): what the queue must see in one cycle, given the storages before and after -/
 
@@ -324,9 +362,17 @@ def ingNodes (i : Ing) : List Node :=
   Node.host i.rule ::
   i.tls.flatMap (fun t =>
     t.hosts.map Node.host ++ (if t.hosts.isEmpty || t.secret = "" then [] else [Node.sec t.secret]) ++
-    (if i.acme && t.secret ≠ "" then [Node.acme t.secret] else []))
+    (if i.acme && t.secret ≠ "" && !t.hosts.isEmpty then [Node.acme t.secret] else []))
 
+/-- a TLS block of an acme ingress declares a storage when it names a secret and at least one host -/
 def ingAcqs (i : Ing) : List Acq :=
+  if i.acme then
+    i.tls.filterMap (fun t =>
+      if t.secret ≠ "" && !t.hosts.isEmpty then some ⟨t.secret, i.chain, t.hosts⟩ else none)
+  else []
+
+/-- before the repair a block without hosts declared a storage without domains -/
+def ingAcqsOld (i : Ing) : List Acq :=
   if i.acme then
     i.tls.filterMap (fun t => if t.secret ≠ "" then some ⟨t.secret, i.chain, t.hosts⟩ else none)
   else []
@@ -380,9 +426,9 @@ def convPlan (s : ConvSt) (c : ConvCycle) : Cycle × Tracker :=
      c.world.map (fun i => (i.name, ingNodes i)))
   else
     let (added, updated, deleted) := changedNames s.world c.world
-    -- trackAddedIngress: rule hosts of added and updated ingresses
+    -- trackAddedIngress: rule hosts and TLS hosts of added and updated ingresses
     let pre : Tracker := (added ++ updated).filterMap (fun n =>
-      (findIng c.world n).map (fun i => (n, [Node.host i.rule])))
+      (findIng c.world n).map (fun i => (n, Node.host i.rule :: i.tls.flatMap (fun t => t.hosts.map Node.host))))
     let T := s.tracker ++ pre
     let seeds := added ++ updated ++ deleted
     let dirtyIngs := closure T (T.length + 1) seeds
@@ -415,6 +461,8 @@ def oracleConv : World → List ConvCycle → List (List QOp) → Option String
   | _, [], _ => none
   | _, _ :: _, [] => some "missing-output"
   | w, c :: cs, o :: os =>
+    -- an item without domains makes the signer ask for the empty name
+    if (splitOps o).1.any (fun e => e.2.doms.isEmpty) then some "empty-domain-set-requested" else
     match oracleCycle c.full c.leader c.acct (declared w) (declared c.world) o with
     | some e => some e
     | none => oracleConv c.world cs os
